@@ -11,8 +11,9 @@ Stride == IF "STRIDE" \in DOMAIN IOEnv THEN atoi(IOEnv.STRIDE) ELSE 1
 Offset == IF "OFFSET" \in DOMAIN IOEnv THEN atoi(IOEnv.OFFSET) ELSE 0
 VARIABLES tp, g, k1, k2
 vars == <<tp, g, k1, k2>>
-Toks == Templates[tp]
-Init ==
+Toks == IF tp = 0 THEN <<>> ELSE Templates[tp]
+InitEndings == tp = 0 /\ g \in 1..Len(Endings) /\ k1 = 0 /\ k2 = 0
+InitPlacements ==
   /\ tp \in 1..Len(Templates)
   /\ g \in 0..Len(Templates[tp])
   /\ k1 \in 1..NKinds
@@ -21,6 +22,7 @@ Init ==
   /\ (Mode = "eof" => g = Len(Templates[tp]) /\ k1 = 1)
   /\ (tp * 7919 + g * 104729 + k1 * 1299709 + k2 * 15485863) % Stride = Offset % Stride
 Next == UNCHANGED vars
+\* MODE = "endings": one state per ending (tp = 0, g = index)
 \* two trivia in one gap: a line comment must stay terminated, so the pair is simply concatenated (k1 ends with \n when it is a line comment)
 Text ==
   LET base == BaseGap(Toks) IN
@@ -35,5 +37,7 @@ Gaps ==
   ELSE IF Mode = "adjacent" THEN Place(Toks, Place(Toks, base, g, Kinds[k1]), g + 1, Kinds[k2])
   ELSE [base EXCEPT ![Len(Toks)] = EofKinds[k2]]
 \* tspans: byte ranges (1-based, inclusive) of the type regions of the rendered text (empty for the untyped templates)
-Emit == PrintT("CASE " \o ToJson([tpl |-> tp, gap |-> g, k1 |-> k1, k2 |-> k2, mode |-> Mode, src |-> Text, tspans |-> ByteSpans(tp, Toks, Gaps)]))
+Init == IF Mode = "endings" THEN InitEndings ELSE InitPlacements
+Emit == IF tp = 0 THEN PrintT("CASE " \o ToJson([tpl |-> 0, gap |-> g, k1 |-> 0, k2 |-> 0, mode |-> Mode, src |-> Endings[g], tspans |-> <<>>])) ELSE
+        PrintT("CASE " \o ToJson([tpl |-> tp, gap |-> g, k1 |-> k1, k2 |-> k2, mode |-> Mode, src |-> Text, tspans |-> ByteSpans(tp, Toks, Gaps)]))
 =============================================================================
